@@ -145,7 +145,16 @@ class Ctx:
 
         def mk(ds):
             return CFDivisor(G, [(self.names[i], ds[i]) for i in range(n)])
-        how = r.choice(["negneg", "neg", "rmul", "rmul", "sum", "diff", "apply0", "moves", "transfer", "scale1"])
+        how = r.choice(["negneg", "neg", "rmul", "rmul", "sum", "diff", "apply0", "moves", "transfer", "scale1"]
+                       + (["deepcopy", "fromdict", "cfgcopy", "cfgcopy"] if self.scn.get("op") in ("ewd", "greedy", "lap", "dhar") else []))
+        if how == "deepcopy":
+            # the same chips on an equal but distinct graph object (the analysis still receives G)
+            return copy.deepcopy(mk(degs))
+        if how == "fromdict":
+            return CFDivisor.from_dict(mk(degs).to_dict())
+        if how == "cfgcopy" and n >= 1:
+            # the divisor under a copied configuration
+            return CFConfig(mk(degs), self.names[r.randrange(n)]).copy().divisor
         if how == "negneg":
             return -(-mk(degs))
         if how == "neg":
@@ -422,9 +431,17 @@ def op_div_hist(scn):
         if not ok:
             return {"ctor": "ERR"}
     out = {"ctor": {"deg": c.degs(D), "total": D.get_total_degree()}, "steps": []}
-    for o in scn.get("ops", []):
+    for step_no, o in enumerate(scn.get("ops", [])):
         kind = o[0]
         ret = None
+        if scn.get("copy_at") == step_no:
+            # the history continues on a copy (CFConfig.copy() / deepcopy): a copy is the same game
+            if cfg is not None:
+                okc, cfg2 = call(cfg.copy)
+                if okc and cfg2 is not None:
+                    cfg, D = cfg2, cfg2.divisor
+            else:
+                D = copy.deepcopy(D)
         if kind == "lend":
             ok, _ = call(D.lending_move if not scn.get("alias") else D.firing_move, c.name(o[1]))
         elif kind == "borrow":
@@ -511,6 +528,8 @@ def op_div_arith(scn):
         return ddig(c, v) if ok else "ERR"
     out["add"] = d(call(lambda: A + B))
     out["sub"] = d(call(lambda: A - B))
+    out["radd"] = d(call(lambda: B + A))
+    out["rsub"] = d(call(lambda: B - A))
     out["neg"] = d(call(lambda: -A))
     out["rmul"] = d(call(lambda: k * A))
     out["eq_AB"] = bool(A == B)
